@@ -296,6 +296,8 @@ fn pair_history(acc: &mut Acc, r: &mut Rng, kind: Kind, variant: u64, steps: u64
             advance(&mut wd.app, 1, 6_000_000_000);
         }
     }
+    let k = hist.len().saturating_sub(8);
+    acc.sample(|| json!({"world": target, "tail": hist[k..].to_vec()}));
 }
 
 // ------------------------------------------------------------------------------------------------
@@ -347,6 +349,8 @@ fn helper_history(acc: &mut Acc, r: &mut Rng, variant: u64, steps: u64) {
         let mut set = move |app: &mut App, tt: T3| set_pair(app, &o2, &f2, &p2, tt, wf2);
         twin(acc, &mut wd.app, &tokens, "pair-cp", "deposit.frontend-helper", OpKind::Deposit, t, ever, &mut set, &mut op, &hist, r);
     }
+    let k = hist.len().saturating_sub(8);
+    acc.sample(|| json!({"world": "pair-cp + incentive + frontend helper", "tail": hist[k..].to_vec()}));
 }
 
 // ------------------------------------------------------------------------------------------------
@@ -466,6 +470,8 @@ fn trio_history(acc: &mut Acc, r: &mut Rng, variant: u64, steps: u64) {
             advance(&mut wd.app, 1, 6_000_000_000);
         }
     }
+    let k = hist.len().saturating_sub(8);
+    acc.sample(|| json!({"world": "trio", "tail": hist[k..].to_vec()}));
 }
 
 // ------------------------------------------------------------------------------------------------
@@ -612,6 +618,8 @@ fn vault_history(acc: &mut Acc, r: &mut Rng, steps: u64) {
         }
     }
     let _ = to_json_binary(&0u8);
+    let k = hist.len().saturating_sub(8);
+    acc.sample(|| json!({"world": "vaults", "tail": hist[k..].to_vec()}));
 }
 
 pub fn run(ctx: &Ctx) -> (CheckMeta, Acc) {
